@@ -995,7 +995,9 @@ def c16_extra(rep, rd, b):
     # growth: minimum-size file at 64 KiB pages, 30 MB of data => at least three 8 MiB extensions
     runs = [(65536, 4, 60000, 500 if rep.tier == "quick" else 1500, 20, True), (1024, 4, 3000, 6000 if rep.tier == "quick" else 12000, 200, False),
             # one commit that needs more than two extension steps at once
-            (4096, 32, 50000, 500, 500, True), (4096, 4, 50000, 440, 220, False)]
+            (4096, 32, 50000, 500, 500, True), (4096, 4, 50000, 440, 220, False),
+            # initial files just below a multiple of the 8 MiB extension step (the first extension must still cover the commit)
+            (4096, 2040, 50000, 240, 40, True), (65536, 127, 60000, 200, 20, False), (1024, 8191, 3000, 4000, 500, False)]
     for (ps, np_, vs, count, per, strict) in runs:
         dbp = os.path.join(d, "grow.db")
         if os.path.exists(dbp):
@@ -1006,7 +1008,7 @@ def c16_extra(rep, rd, b):
         m = re.search(r"grow:ok n=(\d+) contents_ok=(\w+) lens=\[([0-9, ]*)\]", out)
         lens = [int(x) for x in m.group(3).split(",")] if m and m.group(3).strip() else []
         steps = [b_ - a for a, b_ in zip(lens, lens[1:])]
-        ok = bool(m) and int(m.group(1)) == count and m.group(2) == "true" and len(lens) >= (4 if ps == 65536 else (1 if per >= 220 else 3)) \
+        ok = bool(m) and int(m.group(1)) == count and m.group(2) == "true" and len(lens) >= (2 if np_ > 100 else 4 if ps == 65536 else (1 if per >= 220 else 3)) \
             and all(s_ > 0 and s_ % (8 << 20) == 0 for s_ in steps)
         if os.path.exists(dbp):
             # final file decodes and passes inv_check
